@@ -279,3 +279,71 @@ def run_playback_test(scratch, config, module_file, code, test, short):
 def _tail(s, n=4000):
     s = "\n".join(l for l in s.splitlines() if not l.startswith("warning"))
     return s[-n:]
+
+
+# ---------------------------------------------------------------------------------------------- external harness crates
+EXT_DIR = os.path.join(KANI_DIR, "ext")
+
+
+def discover_ext():
+    """Harness crates OUTSIDE rrtk (kani/ext/<crate>): they depend on the scratch copy of /repo by path (RRTK_PATH in
+    their Cargo.toml) and check properties of rrtk's public macros as seen from a downstream crate."""
+    out = []
+    if not os.path.isdir(EXT_DIR):
+        return out
+    for c in sorted(os.listdir(EXT_DIR)):
+        lib = os.path.join(EXT_DIR, c, "src", "lib.rs")
+        if not os.path.exists(lib):
+            continue
+        lines = read(lib).splitlines()
+        pending = None
+        hs = []
+        for ln in lines:
+            t = ln.strip()
+            if t.startswith("//@ob"):
+                pending = parse_kv(t[len("//@ob"):])
+                continue
+            m = re.match(r"(?:pub\s+)?fn\s+(c\d\d_\w+)\s*\(", t)
+            if m and pending is not None:
+                name = m.group(1)
+                props = [x.strip() for x in pending.get("prop", "").split(",") if x.strip()]
+                own = "C" + name[1:3]
+                if own not in props:
+                    props.insert(0, own)
+                hs.append({"name": name, "props": props, "meta": pending, "tier": pending.get("tier", "quick")})
+                pending = None
+        out.append({"crate": c, "dir": os.path.join(EXT_DIR, c), "harnesses": hs})
+    return out
+
+
+def run_ext_crate(ext, names, jobs, timeout_s):
+    """Copy the ext crate and /repo's working tree into one scratch dir, point the dependency at the copy, run Kani."""
+    scratch = new_scratch("x." + ext["crate"])
+    repo_copy = os.path.join(scratch, "rrtk")
+    os.makedirs(repo_copy)
+    copy_repo(repo_copy)
+    cdir = os.path.join(scratch, ext["crate"])
+    import shutil
+    shutil.copytree(ext["dir"], cdir)
+    ct = os.path.join(cdir, "Cargo.toml")
+    write(ct, read(ct).replace("RRTK_PATH", repo_copy))
+    write(os.path.join(cdir, ".cargo", "config.toml"), "[net]\noffline = true\n")
+    out_json = os.path.join(cdir, "kani_out.json")
+    cmd = ["cargo", "kani", "-Z", "function-contracts", "-Z", "stubbing", "-Z", "unstable-options", "--no-overflow-checks",
+           "--output-format", "terse", "-j", str(jobs), "--export-json", out_json, "--harness-timeout", "900s"]
+    for n in names:
+        cmd += ["--harness", n]
+    rc, out, secs = run(cmd, cwd=cdir, timeout=timeout_s)
+    if not os.path.exists(out_json):
+        raise Undecided("ext crate %s: cargo kani produced no result file rc=%s\n%s" % (ext["crate"], rc, _tail(out, 3000)))
+    data = json.loads(read(out_json))
+    res = {}
+    for r in data["verification_results"]["results"]:
+        checks = r.get("checks", [])
+        res[r["harness_id"].split("::")[-1]] = {
+            "harness": r["harness_id"], "status": r.get("status"), "duration_ms": r.get("duration_ms"), "n_checks": len(checks),
+            "failed_checks": [{"description": c.get("description"), "function": c.get("function"), "location": c.get("location")}
+                              for c in checks if c.get("status") == "Failure"],
+            "covers": [{"description": c.get("description"), "status": c.get("status")} for c in checks if c.get("category") == "cover"],
+        }
+    return res, " ".join(shlex.quote(c) for c in cmd), cdir
